@@ -1,4 +1,7 @@
+mod c09;
+
 fn main() {
-    eprintln!("no sub-commands yet");
-    std::process::exit(2);
+    vf_kit::dispatch! {
+        "c09" => c09::C09,
+    }
 }
